@@ -100,7 +100,7 @@ def run(prog, ctx):
     import importlib
     INVARIANT_RULES = {"C02": ("C02.Q", "C02.Q2", "C02.A4", "C02.R", "C02.V", "C02.G", "C02.Z", "C02.K"), "C03": ("C03.L", "C03.K", "C03.G"), "C04": ("C04.K", "C04.G", "C04.R", "C04.T", "C04.Z", "C04.N"),
                        "C05": ("C05.D", "C05.N", "C05.M", "C05.Z", "C05.K"), "C06": ("C06.L", "C06.K", "C06.O", "C06.T"), "C07": ("C07.P", "C07.D", "C07.Z", "C07.K", "C07.N"),
-                       "C18": ("C18.G", "C18.K"), "C16": ("C16.B", "C16.W")}
+                       "C18": ("C18.G", "C18.K"), "C16": ("C16.B", "C16.W"), "C09": ("C09.S",)}
     nI = 0
     for pack, rules in sorted(INVARIANT_RULES.items()):
         try:
